@@ -211,10 +211,12 @@ def make_params(**kw):
     return types.SimpleNamespace(**d)
 
 
-def new_controller(T, params, csv, sdir, user_int=False):
+def new_controller(T, params, csv, sdir, user_int=False, user_str=False):
     c = T.TrainingStateController(params, csv, sdir, warn=False)
     if user_int:
         c.add_entry("foo", int)
+    if user_str:
+        c.add_entry("note", str)
     for k in ("lr", "train_met", "val_met"):
         if not isinstance(c.fmt_dict[k], PassFmt):
             c.fmt_dict[k] = PassFmt(c.fmt_dict[k])
